@@ -197,6 +197,17 @@ func VerifyIPRestrictedX509CertIP(userCert *x509.Certificate, remoteAddr string)
 	return false, nil
 }
 
+// IsIPRestrictedX509Cert returns true if the cert carries the IP address
+// delegation extension (whatever its contents).
+func IsIPRestrictedX509Cert(userCert *x509.Certificate) bool {
+	for _, certExtension := range userCert.Extensions {
+		if certExtension.Id.Equal(oidIPAddressDelegation) {
+			return true
+		}
+	}
+	return false
+}
+
 func ExtractIPNetsFromIPRestrictedX509(userCert *x509.Certificate) ([]net.IPNet, error) {
 	var extension *pkix.Extension = nil
 	var err error
